@@ -191,7 +191,7 @@ class HoistSetupCallsIntoConditionals(RewritePattern):
         if op.parent_block() is not op.in_state.owner.parent_block():
             return
         # the values the setup uses must already be available inside the scf.if, i.e. they
-        # must not be computed between the scf.if and the setup
+        # must not be computed between the scf.if and the setup, nor be results of the scf.if itself
         block = op.parent_block()
         assert block is not None
         if_index = block.get_operation_index(op.in_state.owner)
@@ -199,7 +199,7 @@ class HoistSetupCallsIntoConditionals(RewritePattern):
             if (
                 isinstance(val, OpResult)
                 and val.op.parent_block() is block
-                and block.get_operation_index(val.op) > if_index
+                and block.get_operation_index(val.op) >= if_index
             ):
                 return
         # grab some helper vars
